@@ -35,6 +35,7 @@ type Answer struct {
 	ExpiresInRaw string `json:"expires_in_raw,omitempty"` // verbatim JSON for expires_in
 	AccessLife   int    `json:"access_life,omitempty"`    // the access token lives this many seconds (expires_in says so); the ID token keeps the provider's lifetime
 	Azp          bool   `json:"azp,omitempty"`            // honest ID token that also carries azp = client id
+	RotateOnce   bool   `json:"rotate_once,omitempty"`    // refresh: rotate the refresh token the first time, omit the member afterwards
 }
 
 var Honest = Answer{Name: "honest"}
@@ -366,7 +367,7 @@ func (p *SimIdP) process(tr *TokenReq, mode Answer) (int, string) {
 		p.Issued[at] = &Issued{Kind: "access", Login: login.ID, Exp: aexp, Honest: true, Seq: p.seq, Announced: !mode.NoExpiresIn && mode.ExpiresInRaw == ""}
 	}
 	if isRefresh {
-		if !mode.KeepRT && !mode.NoRefresh {
+		if !mode.KeepRT && !mode.NoRefresh && !(mode.RotateOnce && len(login.OldRTs) > 0) {
 			nrt := fmt.Sprintf("RT-%d-%04d-sekret", login.ID, p.next())
 			login.OldRTs = append(login.OldRTs, login.CurrentRT)
 			login.CurrentRT = nrt
